@@ -32,6 +32,32 @@ Theorem C07_bomb_bound_small_limit :
 Proof. exact dz_C07_bomb_bound_small_limit. Qed.
 Print Assumptions C07_bomb_bound_small_limit.
 
+Theorem C07_bomb_bound_small_blocks :
+  forall (OT : Type) (ask : OT -> dz_query -> dz_ans * OT) (c : dz_cfg) ce calls (o : OT),
+    dz_calls_ok 8192 calls ->
+    dc_bomb c <= (c_HTP_COMPRESSION_BOMB_RATIO - 1) * c_GZIP_BUF_SIZE ->
+    let w := tx_w OT (fst (dz_run OT ask c ce calls o)) in
+    dz_delivered_bytes w <= Z.max (dc_bomb c) (2048 * w_message OT w) + 3 * c_GZIP_BUF_SIZE.
+Proof. exact dz_C07_bomb_bound_small_blocks. Qed.
+Print Assumptions C07_bomb_bound_small_blocks.
+
+(* the mechanism: the body callback answers HTP_OK only within the bound, and a call that starts within the bound goes over it by
+   at most ONE block (an output buffer, or the chunk itself in the raw fallback / passthrough), whatever the decoders do *)
+Theorem C07_accepted_means_within_bound :
+  forall (OT : Type) (c : dz_cfg) d (w w' : dz_world OT),
+    dz_callback OT c d w = (w', c_HTP_OK) ->
+    w_entity OT w' <= Z.max (dc_bomb c) (c_HTP_COMPRESSION_BOMB_RATIO * w_message OT w').
+Proof. exact dz_C07_accepted_means_within_bound. Qed.
+Print Assumptions C07_accepted_means_within_bound.
+
+Theorem C07_one_block_over :
+  forall (OT : Type) (ask : OT -> dz_query -> dz_ans * OT) (c : dz_cfg) n ls d (w : dz_world OT) ls' w' r,
+    dz_decompress OT ask c n ls d w = (ls', w', r) ->
+    Forall dz_wf ls -> dz_clean OT c w ->
+    w_entity OT w' <= dz_M OT c w + Z.max (Z.of_nat dz_BUF) (dz_len d) /\ w_message OT w' = w_message OT w /\ (r = c_HTP_OK -> dz_clean OT c w').
+Proof. exact dz_C07_one_block_over. Qed.
+Print Assumptions C07_one_block_over.
+
 (* the property text's bound ("by more than one output buffer"; a passthrough block counts as one block) *)
 Definition C07_bomb_bound_tight_full : Prop :=
   forall (c : dz_cfg) (maxchunk : Z) ce calls recs,
